@@ -188,11 +188,108 @@ pub fn run(args: &Args) -> serde_json::Value {
             }
         }
     }
+    // ---- reversibility probes at configuration level (model-independent): an explicit single-update RVB sweep is a
+    // Metropolis move on operator strings; for two configurations X, Y of equal operator count its transition
+    // frequencies must satisfy W(X) P(X->Y) = W(Y) P(Y->X) with W the product of matrix elements.  Frequencies are
+    // measured over many scripted-seed trials from clones of X and of Y; a deviation beyond 6 sigma is re-measured
+    // with 4x the trials from other seeds before it is reported.
+    let n_probe_models = if args.thorough { 300 } else { 60 };
+    let mut n_rev_pairs = 0usize;
+    let mut n_rev_trials = 0usize;
+    let weight = |spec: &IsingSpec, sl: &Slots| -> f64 { sl.iter().flatten().map(|o| spec.weight(o.bond, &o.ins, &o.outs)).product() };
+    for mi in 0..n_probe_models {
+        // two or three spins, several couplings of unequal magnitude between the same sites (also frustrated), h = 0
+        let nv = 2 + (mi % 2);
+        let mags = [0.5, 1.5, 1.0, 2.0, 0.75];
+        let mut edges = vec![((0usize, 1usize), -mags[mi % 5]), ((0, 1), mags[(mi + 1) % 5])];
+        if mi % 3 == 0 {
+            edges.push(((0, 1), mags[(mi + 2) % 5]));
+        }
+        if nv == 3 {
+            edges.push(((1, 2), mags[(mi + 3) % 5]));
+            edges.push(((0, 2), -mags[(mi + 4) % 5]));
+        }
+        let spec = IsingSpec { nvars: nv, edges, gamma: 1.0, h: 0.0, cutoff: 6, state: (0..nv).map(|_| rng.chance(1, 2)).collect(), hb: false };
+        let mut g = spec.build(TapeRng::new(rng.next()));
+        g.rng_logging_off();
+        let probe_beta = [0.5, 1.0, 2.0][(mi / 2) % 3];
+        for _ in 0..(20 + rng.below(20)) {
+            g.timestep(probe_beta);
+        }
+        let x = g.clone();
+        let (slx, stx, _) = snapshot_ising(&x);
+        if slx.iter().flatten().count() < 2 {
+            continue;
+        }
+        let key = |g: &IG| { let (sl, st, _) = snapshot_ising(g); format!("{:?}|{:?}", sl, st) };
+        let kx = key(&x);
+        let trial = |from: &IG, seed: u64| -> IG {
+            // the same configuration with another RNG attached (through the RNG-less snapshot form)
+            let (sg, _old): (qmc::sse::serialization::SerializeQmcGraph<qmc::sse::fast_ops::FastOps>, TapeRng) = from.clone().into();
+            let mut r = TapeRng::new(seed);
+            r.logging = false;
+            let mut c: IG = sg.into_qmc(r);
+            c.single_rvb_sweep(Some(1));
+            c
+        };
+        // all destinations Y != X reached at least 40 times, each with its return frequency
+        let measure = |x: &IG, kx: &str, trials: usize, seed0: u64| -> Vec<(IG, f64, f64)> {
+            let mut counts: std::collections::BTreeMap<String, (usize, IG)> = std::collections::BTreeMap::new();
+            for t in 0..trials {
+                let c = trial(x, seed0.wrapping_add(t as u64));
+                let k = key(&c);
+                if k != kx {
+                    counts.entry(k).or_insert((0, c)).0 += 1;
+                }
+            }
+            let mut dests: Vec<(usize, IG)> = counts.into_iter().map(|(_, v)| v).filter(|v| v.0 >= 40).collect();
+            dests.sort_by_key(|v| std::cmp::Reverse(v.0));
+            dests.truncate(6);
+            dests.into_iter().map(|(a, y)| {
+                let mut b = 0usize;
+                for t in 0..trials {
+                    if key(&trial(&y, seed0.wrapping_add(0x9E37_79B9).wrapping_add(t as u64))) == kx {
+                        b += 1;
+                    }
+                }
+                (y, a as f64 / trials as f64, b as f64 / trials as f64)
+            }).collect()
+        };
+        let trials = 4000usize;
+        let r = catch_unwind(AssertUnwindSafe(|| measure(&x, &kx, trials, rng.next())));
+        if let Ok(pairs) = r {
+            for (y, pxy, pyx) in pairs {
+                n_rev_trials += 2 * trials;
+                n_rev_pairs += 1;
+                let (sly, _, _) = snapshot_ising(&y);
+                let (wx, wy) = (weight(&spec, &slx), weight(&spec, &sly));
+                let sigma = |p: f64, n: usize| (p.max(1.0 / n as f64) / n as f64).sqrt();
+                let off = |pxy: f64, pyx: f64, n: usize| (wx * pxy - wy * pyx).abs() > 6.0 * (wx * sigma(pxy, n) + wy * sigma(pyx, n));
+                if off(pxy, pyx, trials) {
+                    // confirmation with 4x the trials and other seeds, towards the same Y
+                    let big = 4 * trials;
+                    let ky = key(&y);
+                    let s1 = rng.next();
+                    let a2 = (0..big).filter(|t| key(&trial(&x, s1.wrapping_add(*t as u64))) == ky).count() as f64 / big as f64;
+                    let b2 = (0..big).filter(|t| key(&trial(&y, s1.wrapping_add(0x51_7C_C1_B7).wrapping_add(*t as u64))) == kx).count() as f64 / big as f64;
+                    n_rev_trials += 2 * big;
+                    if off(a2, b2, big) {
+                        fail(format!("an RVB update is not reversible: W(X) P(X->Y) = {:.5} but W(Y) P(Y->X) = {:.5} (W(X) = {}, W(Y) = {}, P(X->Y) = {:.4}, P(Y->X) = {:.4} over {} single-update sweeps each)",
+                                wx * a2, wy * b2, wx, wy, a2, b2, big),
+                            json!({"edges": spec.edges, "gamma": spec.gamma, "h": 0.0, "state_X": stx,
+                                "slots_X": slx.iter().map(|o| o.as_ref().map(|o| json!([o.vars, o.bond, o.ins, o.outs]))).collect::<Vec<_>>(),
+                                "slots_Y": sly.iter().map(|o| o.as_ref().map(|o| json!([o.vars, o.bond, o.ins, o.outs]))).collect::<Vec<_>>()}),
+                            &mut oracle_failures);
+                    }
+                }
+            }
+        }
+    }
     let files = crate::write_shards(&args.out, "Rvb", "Rvb", &coq, if args.thorough { 400 } else { 60 });
     json!({"files": files, "replayed_rvb_sweeps": n_replay_sweeps, "replayed_rvb_timesteps": n_replay_steps,
         "replayed_raw_words": n_replay_words, "replayed_sweep_updates_accepted": n_replay_accepted, "evaluations": n_calls, "distinct_nontrivial": distinct.len(), "histories": n_hist, "rvb_sweeps": n_rvb,
         "rvb_sweeps_that_changed_the_configuration": n_rvb_changed, "operators_rotated_to_another_bond": n_rvb_rotated,
-        "histories_with_field": n_field, "histories_with_frustrated_triangle": n_frustrated, "n_after_histogram(bucket of 5)": hist_n,
+        "reversibility_probe_pairs": n_rev_pairs, "reversibility_probe_sweeps": n_rev_trials, "histories_with_field": n_field, "histories_with_frustrated_triangle": n_frustrated, "n_after_histogram(bucket of 5)": hist_n,
         "oracle_failures": oracle_failures, "samples": samples,
         "rule": "random Ising samplers (2-5 spins, multi-edges, J of both signs and unequal magnitude, every third with a frustrated triangle, h = 0 / +-, heat bath on/off, automatic RVB on/off); histories interleaving timestep / single_diagonal_step / single_rvb_sweep(1..4); after each call: naive periodic world-line check, legality of every stored operator, get_n / get_bond_count against a scan, verify(), and for explicit sweeps the structural contract (same slots occupied, constant operators untouched, only two-site bonds rotate)"})
 }
